@@ -432,8 +432,33 @@ pub fn run(ctx: &mut Ctx) {
             ctx.bucket("read:absurd-length-fixed");
         }
     }
+    // long vectors (dynamic and auto types): word boundaries of 64 up to 4097 bits and odd lengths between
+    for ty in [IDX_BVD, IDX_BV] {
+        for n in gen::long_lens(tier) {
+            if !ctx.mine() {
+                continue;
+            }
+            for va in gen::lattice_small(n, 64, &mut rng) {
+                for big in [false, true] {
+                    let a = Spec::new(ty, va.clone(), via_for(ty, &mut rng));
+                    for wk in [0u8, 1, 2] {
+                        judge(ctx, &Case::new("tovec").with("a", a.enc()).with("big", big as u8).with("writer", wk), "W-long-vectors");
+                    }
+                    judge(ctx, &Case::new("roundtrip").with("a", a.enc()).with("big", big as u8), "W-long-vectors");
+                    let mut bytes = model::bytes_le(&va);
+                    if let Some(l) = bytes.last_mut() {
+                        *l |= 0x80;
+                    }
+                    for rk in [0u8, 1, 2] {
+                        judge(ctx, &Case::new("read").with("ty", ty).with("bytes", hex_enc(&bytes)).with("len", n).with("big", big as u8).with("reader", rk), "W-long-vectors");
+                    }
+                    judge(ctx, &Case::new("frombytes").with("ty", ty).with("bytes", hex_enc(&bytes)).with("big", big as u8), "W-long-vectors");
+                }
+            }
+        }
+    }
     // random
-    let per = tier.pick(100, 25_000, 1_000_000) / ctx.nworkers + 1;
+    let per = tier.pick(100, 25_000, 300_000) / ctx.nworkers + 1;
     let mut rng = Rng::derive(ctx.seed, 0x1314, ctx.worker as u64);
     for _ in 0..per {
         let ty = rng.below(NTYPES);
